@@ -1,5 +1,5 @@
 SPECIFICATION SpecF
-CONSTANTS NSync=3 MaxClock=1 RetentionEnabled=TRUE Fine=TRUE Variant="fixed"
+CONSTANTS NSync=3 MaxClock=1 RetentionEnabled=TRUE Fine=TRUE Variant="asis" Fixes={"W1","W2","W3"}
 INVARIANTS NeverAhead NoSkip SidecarAfterApply Converges NoStall ResumeAccepted ResumeAfterKill
 PROPERTY SidecarMonotone
 CHECK_DEADLOCK FALSE
